@@ -45,6 +45,7 @@ class Run:
         self.info = {}
         self.activity = 0  # HCI packets seen at either host boundary
         self.harness_errors = []
+        self.deferred = {}
 
     def guard(self, fn):
         """observer code runs inside bumble's call stacks, which may catch and log what it raises: a bug of the harness must
@@ -95,7 +96,12 @@ class Run:
         def sink(data, side=side, lk=lk):
             rec.sink(side, lk, bytes(data))
 
-        dlc.sink = self.guard(sink)
+        if self.sc.get("late_sink") == side:
+            # the application of this side installs its sinks later (script operation "attach"): what arrives in
+            # the meantime is the link's own early data and must come out of this link's sink, in order
+            self.deferred[(i, side)] = (dlc, self.guard(sink))
+        else:
+            dlc.sink = self.guard(sink)
         if self.dlc_patch:  # binding self-test: a documented misbehaviour wrapped around the real object
             self.dlc_patch(side, dlc)
 
@@ -200,6 +206,11 @@ class Run:
                     cs.append(self.call(side, "close", dlc.dlci, dlc.disconnect()))
                 if cs:
                     await asyncio.gather(*cs)
+            elif kind == "attach":
+                for i, side in op[1]:
+                    if (i, side) in self.deferred:
+                        dlc, fn = self.deferred.pop((i, side))
+                        dlc.sink = fn
             elif kind == "mux_close":
                 m = self.mux[op[1]]
                 await self.call(op[1], "mux_close", 0, m.disconnect())
